@@ -18,9 +18,10 @@ from .explore import Unsupported, PathInfeasible
 class PyRaise(Exception):
     """An exception of the interpreted program."""
 
-    def __init__(self, exc):
+    def __init__(self, exc, where=None):
         super().__init__(repr(exc))
         self.exc = exc
+        self.where = where
 
 
 class ReturnEx(Exception):
@@ -86,6 +87,7 @@ class Interp:
         self.modules = {}
         self.ctx = None
         self.depth = 0
+        self.callstack = []
         self.summaries = {}  # qualname -> FuncV (spec function used at call sites)
         self.summary_off = set()  # qualnames whose body is being verified (not replaced)
         self.used_summaries = set()
@@ -105,7 +107,7 @@ class Interp:
         return inst
 
     def throw(self, clsname, *args):
-        raise PyRaise(self.make_exc(clsname, *args))
+        raise PyRaise(self.make_exc(clsname, *args), list(self.callstack[-6:]))
 
     # ------------------------------------------------------------------ modules
     def import_module(self, name):
@@ -541,6 +543,7 @@ class Interp:
         if self.depth > self.cfg.call_depth:
             self.depth -= 1
             raise Unsupported(f"call depth exceeded at {q}")
+        self.callstack.append(q)
         try:
             loc = self.bind_args(f, args, kwargs)
             fr = Frame(loc, f.globs, f.closure, f.defcls, f, f.defcls.name if f.defcls is not None else None)
@@ -553,6 +556,7 @@ class Interp:
             return None
         finally:
             self.depth -= 1
+            self.callstack.pop()
 
     # ------------------------------------------------------------------ statements
     def exec_block(self, stmts, fr):
@@ -858,7 +862,7 @@ class Interp:
             self.throw("TypeError", "exceptions must derive from BaseException")
         if s.cause is not None:
             e.fields["__cause__"] = self.eval(s.cause, fr)
-        raise PyRaise(e)
+        raise PyRaise(e, list(self.callstack[-6:]) + [f"line {s.lineno}"])
 
     def st_Try(self, s, fr):
         try:
